@@ -796,6 +796,21 @@ def r17_12(ctx):
         else:
             r.violate(b.name, "close:twice", b.where(bi), "Close is sent without this call having performed the transition to Closed: a channel the SCTP guard "
                       "already closed is told Close a second time")
+    # ... and the sweep is not an alternative to closing the SCTP transport: the runner's guard fires once, when the
+    # association ends - a channel registered AFTER that (peer close_notify / ABORT / timeout ended SCTP while the
+    # connection stayed open) meets neither, unless close() sweeps on every path
+    def lock_on(field):
+        return [bi for bi, t, p in b.calls() if p and p.endswith("::lock") and t["a"] and mir.has_field(b.term_operand(t["a"][0]), field)]
+    sweep, takes = lock_on("data_channels"), lock_on("sctp_transport")
+    if not sweep or not takes:
+        raise core.CheckerError("R17.12: data_channels / sctp_transport lock sites not found in close_with_reason")
+    for tb in takes:
+        if core.always_followed_by(b, tb, sweep):
+            r.ok({"site": b.where(tb), "then": "the data-channel sweep, on every path to the return"})
+        else:
+            r.violate(b.name, "close:sweep-skipped", b.where(tb),
+                      "close_with_reason can return without sweeping the registered data channels when an SCTP transport exists: a channel "
+                      "created after the association had already ended gets no Close and its recv() waits for ever")
     return r
 
 
